@@ -336,6 +336,14 @@ def _reduction(opname, dtype=None, index=False):
             if ext is not None and ext.known():
                 parts.append(("n", A.dim_term(ext)))
         term = T(opname, *parts)
+        if opname == "sum" and x.term.op == "mul" and len(x.term.args) == 2 and sh is not None and len(sh) == 2 and len(parts) == 2 and axis_of(b.get("axis"), rank) in (0, 1):
+            # sum_j P_ij Q_ij = diag(P Q^T)_i   (and along the other axis diag(P^T Q))
+            pv, qv = interp.vtab.get(x.term.args[0]), interp.vtab.get(x.term.args[1])
+            if pv is not None and qv is not None and shape(pv) == tuple(sh) and shape(qv) == tuple(sh):
+                if axis_of(b.get("axis"), rank) == 1:
+                    term = T("diagof", T("matmul", pv.term, T("T", qv.term)))
+                else:
+                    term = T("diagof", T("matmul", T("T", pv.term), qv.term))
         if opname in ("any", "all") and x.term.op in ("lt", "le", "gt", "ge") and at is not None and len(parts) == 2:
             # any(a < c) along an axis, c a scalar bound  ==  min(a) < c   (all: max)
             info = getattr(interp, "cmp_info", {}).get(x.term)
@@ -482,7 +490,9 @@ def np_where(interp, name, args, kw, st, node):
 def np_argwhere(interp, name, args, kw, st, node):
     x = arrv(args[0])
     sh = shape(x)
-    return fresh_arr(T("argwhere", x.term), (Dim.unknown("argwhere"), Dim(len(sh)) if sh is not None else Dim.unknown("r")), x.labels, "int")
+    # the rank of the mask is part of the term: np.concatenate(np.argwhere(m)) of a 1-D mask is np.flatnonzero(m)
+    t = T("argwhere", x.term, ("rank", const(len(sh)))) if sh is not None else T("argwhere", x.term)
+    return fresh_arr(t, (Dim.unknown("argwhere"), Dim(len(sh)) if sh is not None else Dim.unknown("r")), x.labels, "int")
 
 
 @reg("numpy.searchsorted")
@@ -1670,3 +1680,104 @@ def self_ext_method(interp, recv, name, args, kw, st, node):
         return V("float", T("mcall", recv.term, "score", tuple(a.term for a in args), kwterms(kw)), shape=(), labels=labels)
     interp.event("ext-self-method", node, st, method=name, recv=recv)
     return V("unk", T("mcall", recv.term, name, tuple(a.term for a in args), kwterms(kw)), labels=labels | recv.labels)
+
+
+# -- einsum: the contraction patterns this code base could plausibly use, translated to the
+#    matmul / Hadamard / trace / diagonal vocabulary ------------------------------------------------
+
+
+@reg("numpy.einsum")
+def np_einsum(interp, name, args, kw, st, node):
+    def opaque():
+        interp.event("opaque-call", node, st, fn=name)
+        return V("unk", callterm(name, args, kw), labels=_L(*args, *kw.values()), orig=frozenset([FRESH]))
+
+    if not args or not (args[0].has_const and isinstance(args[0].const, str)) or kw:
+        return opaque()
+    spec = args[0].const.replace(" ", "")
+    if "." in spec:
+        return opaque()
+    lhs, _, out = spec.partition("->")
+    subs = lhs.split(",")
+    if "->" not in spec:
+        allidx = "".join(subs)
+        out = "".join(sorted(c for c in set(allidx) if allidx.count(c) == 1))
+    ops = [arrv(a) for a in args[1:]]
+    if len(ops) != len(subs) or any(shape(o) is None or len(shape(o)) != len(s) for o, s in zip(ops, subs)):
+        return opaque()
+    mm = lambda a, b: A.binop(interp, "matmul", a, b, st, node)
+    had = lambda a, b: A.binop(interp, "mul", a, b, st, node)
+    tr = lambda a: transpose(interp, a)
+
+    def red(v, idx, keep):
+        """sum over the indices of v that are not kept"""
+        drop = [i for i, c in enumerate(idx) if c not in keep]
+        if not drop:
+            return v, idx
+        if len(drop) == len(idx):
+            return NP["numpy.sum"](interp, "numpy.sum", [v], {}, st, node), ""
+        if len(idx) == 2 and len(drop) == 1:
+            return NP["numpy.sum"](interp, "numpy.sum", [v], {"axis": vconst(drop[0])}, st, node), idx[1 - drop[0]]
+        return None, None
+
+    # repeated index inside one operand: diagonal / trace
+    cur, ci = ops[0], subs[0]
+    if len(ci) == 2 and ci[0] == ci[1]:
+        if len(ops) != 1:
+            return opaque()
+        if out == ci[0]:
+            return np_diag(interp, "numpy.diagonal", [cur], {}, st, node)
+        if out == "":
+            return np_trace(interp, "numpy.trace", [cur], {}, st, node)
+        return opaque()
+    if any(len(set(s)) != len(s) for s in subs) or len(set(out)) != len(out) or any(len(s) > 2 for s in subs):
+        return opaque()
+    for k in range(1, len(ops)):
+        nxt, ni = ops[k], subs[k]
+        later = set(out) | set("".join(subs[k + 1:]))
+        if set(ci) == set(ni) and len(ci) == len(ni):
+            b = nxt if ni == ci else tr(nxt)
+            gone = [c for c in ci if c not in later]
+            if len(ci) == 2 and len(gone) == 2:
+                # sum_ij A_ij B_ij = trace(A B^T)
+                cur, ci = np_trace(interp, "numpy.trace", [mm(cur, tr(b))], {}, st, node), ""
+            elif len(ci) == 2 and len(gone) == 1:
+                # sum_j A_ij B_ij = diag(A B^T)_i ; sum_i A_ij B_ij = diag(A^T B)_j
+                if gone[0] == ci[1]:
+                    cur, ci = np_diag(interp, "numpy.diagonal", [mm(cur, tr(b))], {}, st, node), ci[0]
+                else:
+                    cur, ci = np_diag(interp, "numpy.diagonal", [mm(tr(cur), b)], {}, st, node), ci[1]
+            elif len(ci) == 1 and len(gone) == 1:
+                cur, ci = mm(cur, b), ""
+            else:
+                cur = had(cur, b)
+            continue
+        shared = [c for c in ci if c in ni]
+        if len(shared) != 1 or shared[0] in later:
+            return opaque()
+        c = shared[0]
+        a_, b_ = cur, nxt
+        if len(ci) == 2 and len(ni) == 2:
+            if ci[0] == c:
+                a_, ci = tr(a_), ci[::-1]
+            if ni[1] == c:
+                b_, ni = tr(b_), ni[::-1]
+            cur, ci = mm(a_, b_), ci[0] + ni[1]
+        elif len(ci) == 2 and len(ni) == 1:
+            if ci[0] == c:
+                a_, ci = tr(a_), ci[::-1]
+            cur, ci = mm(a_, b_), ci[0]
+        elif len(ci) == 1 and len(ni) == 2:
+            if ni[1] == c:
+                b_, ni = tr(b_), ni[::-1]
+            cur, ci = mm(a_, b_), ni[1]
+        else:
+            return opaque()
+    cur, ci = red(cur, ci, set(out))
+    if cur is None:
+        return opaque()
+    if ci == out:
+        return cur
+    if len(ci) == 2 and ci[::-1] == out:
+        return tr(cur)
+    return opaque()
